@@ -103,7 +103,7 @@ TREES_THOROUGH = [
 ]
 
 
-def RP(inner, *reps): return {'kind': 'replace', 'inner': inner, 'replacements': [dict(start=r[0], end=r[1], content=r[2], name=(r[3] if len(r) > 3 else None), enforce=(r[4] if len(r) > 4 else 1)) for r in reps]}
+def RP(inner, *reps): return {'kind': 'replace', 'inner': inner, 'replacements': [dict(start=r[0], end=r[1], content=r[2], name=(r[3] if len(r) > 3 else None), enforce=(r[4] if len(r) > 4 else 1), then=(r[5] if len(r) > 5 else [])) for r in reps]}
 Q = '?'
 
 REPLACE_QUICK = [
@@ -117,10 +117,16 @@ REPLACE_QUICK = [
     ('replace(rawstr abcd,[sym X],[sym del])', RP(RS('ab\ncd'), (Q, Q, 'X'), (Q, Q, ''))),
     ('replace(orig ab;c,[sym X named],[sym Y])', RP(O('ab;c'), (Q, Q, 'X', 'n'), (Q, Q, 'Y'))),
     ('replace(orig abc,[ins pre/normal/post at sym])', RP(O('abc'), (1, 1, 'N'), (1, 1, 'P', None, 0), (1, 1, 'Q', None, 2), (Q, Q, 'Z'))),
-    ('replace(replace(orig abcdef,[N named n]),[R named r],[sym Y])', RP(RP(O('abcdef'), (3, 4, 'N', 'n')), (0, 1, 'R', 'r'), (Q, Q, 'Y'))),
+    ('replace(replace(orig abcdef,[NM named n]),[R named r],[sym Y])', RP(RP(O('abcdef'), (3, 4, 'NM', 'n')), (0, 1, 'R', 'r'), (Q, Q, 'Y'))),
+    ('replace(rawstr a/bc/de,[sym XX],[sym del])', RP(RS('a\nbc\nde'), (Q, Q, 'XX'), (Q, Q, ''))),
+
     ('replace(concat[orig ab,rawstr c/d],[sym X])', RP(CC(O('ab'), RS('c\nd')), (Q, Q, 'X'))),
     ('replace(orig ab,[beyond end X],[beyond end /Y])', RP(O('ab'), (5, 7, 'X'), (9, 9, '\nY'))),
     ('replace(orig abc,[])', RP(O('a;c'))),
+]
+HISTORY_QUICK = [
+    ('history:replace(orig abcd,[ins sym B];source;[ins sym A];source;[ins sym C])', RP(O('abcd'), (Q, 'S', 'B', None, 1, ['source']), (Q, 'S', 'A', None, 1, ['source']), (Q, 'S', 'C'))),
+    ('history:replace(rawstr abc,[sym B];size;[sym A])', RP(RS('abc'), (Q, Q, 'B', None, 1, ['size']), (Q, Q, 'A'))),
 ]
 REPLACE_THOROUGH = [
     ('replace(orig a;//b,[sym del],[sym Y/])', RP(O('a;\n\nb'), (Q, Q, ''), (Q, Q, 'Y\n'))),
@@ -148,6 +154,9 @@ def replace_jobs(props):
         jobs = []
         for t in REPLACE_QUICK:
             jobs.append(J('tree:' + t[0], 'jobs.streams:tree_job', dict(tree=t[1], props=props), timeout=600))
+        if 'C05' in props:
+            for t in HISTORY_QUICK:
+                jobs.append(J('tree:' + t[0], 'jobs.streams:tree_job', dict(tree=t[1], props=props, what=['source']), timeout=600))
         if tier == 'thorough':
             for t in REPLACE_THOROUGH:
                 jobs.append(J('tree:' + t[0], 'jobs.streams:tree_job', dict(tree=t[1], props=props), required=False, timeout=3000))
